@@ -88,7 +88,7 @@ Next ==
                     THEN LET m == TdfDecode(e.bytes) IN
                          Expect(m.ok /\ m.fonts = e.in, "tdf-bytes-vs-fonts-written", l, [case |-> e.case, cls |-> e.cls, why |-> m.why])
                     ELSE TRUE
-          [] e.ev = "reset" -> TRUE
+          [] e.ev \in {"reset", "sum"} -> TRUE     \* sum: digest line for the bookkeeping of the check (counts distinct cases)
           [] OTHER -> Viol("TOOL", "unknown-event", l, e.ev)
   /\ l' = l + 1
 Spec == Init /\ [][Next]_vars
